@@ -25,6 +25,12 @@ def jobs(prop, tier, seed):
             out.append(dict(harness="C13", variant="deser", pool="union", pid=pid, opts=o, bounds=b, budget_s=40 if q else 150))
         b = dict(depth=2, width=2, strlen=2) if q else dict(depth=3, width=3, strlen=3)
         out.append(dict(harness="C13", variant="ser", pool="union", pid=pid, opts={}, bounds=b, budget_s=25 if q else 120))
+        spec0, _ = pools.get("union", pid)
+        if spec0.k == "union" and sum(1 for a in spec0.a if a.k == "obj") >= 2:
+            # the same union with its alternatives in the reverse order compiled first in the
+            # process: typing.Union compares equal whatever the order of its arguments
+            bw = dict(depth=2, width=2, strlen=2, budget=1)
+            out.append(dict(harness="C13", variant="deser", pool="union", pid=pid, opts={"warm_swapped": True}, bounds=bw, budget_s=40 if q else 150))
         if pid.startswith(("disc", "list(disc", "tagged")):
             # the discriminator key is an external name: same aliaser on both sides
             out.append(dict(harness="C13", variant="ser", pool="union", pid=pid, opts={"aliaser": "prefix"}, bounds=b, budget_s=25 if q else 120))
@@ -80,6 +86,10 @@ class Deser:
         self.kw = api_kwargs(job)
         ns = self.prog.module.__dict__
         self.core, self.wrap = unwrap(self.prog.spec)
+        if job.get("opts", {}).get("warm_swapped"):
+            from typing import Union, get_args
+
+            deserialization_method(Union[tuple(reversed(get_args(self.prog.tp)))], **self.kw)
         self.U = deserialization_method(self.prog.tp, **self.kw)
         self.VE = ValidationError
         if self.wrap == "ann":
